@@ -22,7 +22,7 @@ def base_cases(thorough):
     by = {}
     for c in gen: by.setdefault(c.family, []).append(c)
     for fam, cs in by.items():
-      st = step if fam not in ('EXPR', 'FUNC', 'INJ') else max(1, step // 4)
+      st = step if fam not in ('EXPR', 'FUNC', 'INJ', 'STR') else (1 if fam in ('EXPR', 'STR') else max(1, step // 4))
       out += cs[::st]
   return out
 
@@ -132,6 +132,8 @@ def corruptions(program, typer, thorough=True):
         extra.append(('field-of-number', Eq(('fld', V(v), 'f'), N(1))))
         extra.append(('number-used-as-list', ('in', N(1), V(v))))
         extra.append(('compared-with-string', Cmp('<', V(v), S('a'))))
+        extra.append(('not-equal-to-string', Cmp('!=', V(v), S('a'))))
+        extra.append(('equal-to-string-in-expression', Eq(V('zz9'), Bin('==', V(v), S('a')))))
       if isinstance(t, tuple) and t[0] == 'list':
         extra.append(('arithmetic-on-list', Eq(V('zz9'), Bin('+', V(v), N(1)))))
       if isinstance(t, tuple) and t[0] == 'rec':
